@@ -211,7 +211,7 @@ func runE5In(p *Prog, r *Report, all bool) {
 		count++
 		analyseCopy(p, r, fn)
 	}
-	r.ExpectMin("E5.copy-methods", count, 28)
+	r.ExpectMin("E5.copy-methods", count, 24)
 	r.Clauses = append(r.Clauses,
 		"E5(a) every field of the receiver's struct type (taken from go/types, so future fields are included) is assigned in the result on every path to a non-nil return",
 		"E5(b) no map, slice or pointer field of the result (nor an element of such a container whose type itself holds containers) is the receiver's own storage",
